@@ -511,6 +511,66 @@ def _havoc_consts(terms):
     return list(out.values())
 
 
+class patched_empty:
+    """Deterministic stand-in for uninitialised memory while replaying on the real stack: numpy.empty and friends hand out
+    arrays pre-filled with a chosen pattern, so that a dependence of the observable result on uninitialised cells shows up as a
+    difference between two replays with different patterns."""
+
+    def __init__(self, variant):
+        self.variant = variant
+
+    def _fill(self, dtype):
+        dt = np.dtype(dtype)
+        k = dt.kind
+        v = self.variant
+        if k == "f":
+            return [1.5, -3.25][v]
+        if k in "iu":
+            return [7, 113][v]
+        if k == "b":
+            return [True, False][v]
+        if k == "M":
+            return np.datetime64(["2019-03-03T03:03:03", "2021-07-07T07:07:07"][v]).astype(dt)
+        if k == "m":
+            return np.timedelta64([11, 977][v], "s").astype(dt)
+        return None
+
+    def __enter__(self):
+        self.saved = {(np, "empty"): np.empty, (np, "empty_like"): np.empty_like, (np.ma, "empty"): np.ma.empty,
+                      (np.ma, "empty_like"): np.ma.empty_like}
+        me = self
+
+        def empty(shape, dtype=float, *a, **k):
+            r = me.saved[(np, "empty")](shape, dtype, *a, **k)
+            f = me._fill(r.dtype)
+            if f is not None:
+                r.fill(f)
+            return r
+
+        def empty_like(x, dtype=None, *a, **k):
+            r = me.saved[(np, "empty_like")](x, dtype, *a, **k)
+            f = me._fill(r.dtype)
+            if f is not None and isinstance(r, np.ndarray):
+                np.ma.getdata(r).fill(f)
+            return r
+
+        def ma_empty(shape, dtype=float, *a, **k):
+            return np.ma.MaskedArray(empty(shape, dtype))
+
+        def ma_empty_like(x, dtype=None, *a, **k):
+            r = me.saved[(np.ma, "empty_like")](x, dtype, *a, **k)
+            f = me._fill(r.dtype)
+            if f is not None:
+                np.ma.getdata(r).fill(f)
+            return r
+        np.empty, np.empty_like, np.ma.empty, np.ma.empty_like = empty, empty_like, ma_empty, ma_empty_like
+        return self
+
+    def __exit__(self, *a):
+        for (mod, name), f in self.saved.items():
+            setattr(mod, name, f)
+
+
 def real_geod(lat1, lon1, lat2, lon2):
     from geographiclib.geodesic import Geodesic
     try:
@@ -711,6 +771,20 @@ def run_job(job, seed=0, replay_dir=None):
                 if m is None:
                     res["inconclusive"].append(f"path {res['paths']}: obligation '{label}': no model")
                     continue
+                if label in ("result independent of uninitialised memory", "control flow independent of uninitialised memory"):
+                    # replay twice with two different fill patterns behind numpy.empty / masked_all
+                    with patched_empty(0):
+                        Sc, ra = real_outcome(m)
+                    with patched_empty(1):
+                        _, rb = real_outcome(m)
+                    if json.dumps(ra.describe(), default=str) != json.dumps(rb.describe(), default=str):
+                        res["violations"].append(_violation(job, "the result exposes uninitialised memory (it changes with the "
+                                                            "contents numpy.empty / masked_all hand out)", Sc, ra, out, m,
+                                                            replay_dir, via="solver"))
+                    else:
+                        res["mismatches"].append({"path": res["paths"], "detail": "dependence on uninitialised memory in the model "
+                                                  "did not reproduce with patched numpy.empty", "inputs": jsonable(Sc)})
+                    break
                 Sc, rout = real_outcome(m)
                 try:
                     robl = dict(job.holds(S, rout))
